@@ -239,24 +239,22 @@ func (w *World) Structural() []structural {
 		for top.Parent() != nil {
 			top = top.Parent()
 		}
-		sp := w.SpecFor(top)
-		declared := func(p *ssa.Parameter) bool {
-			if sp == nil {
-				return false
+		declared := w.declaredWrites(top)
+		// a helper without contract that is only ever called statically is executed in place at its call sites: a write
+		// through one of its parameters is judged there (the caller may well hand it a map or slice of its own)
+		chk := func(v ssa.Value, onlyDirect, ptrIsForeign bool) string {
+			src, par := foreignSource(v, declared, onlyDirect, ptrIsForeign)
+			if par != nil && par.Parent() == f && f.Parent() == nil && w.InlineOnly(f) {
+				return w.foreignAtCallers(f, par, ptrIsForeign, 0)
 			}
-			for _, m := range sp.Modifies {
-				if rootIdent(m) == p.Name() || w.renamed(top, rootIdent(m)) == p.Name() {
-					return true
-				}
-			}
-			return false
+			return src
 		}
 		for _, b := range f.Blocks {
 			for _, in := range b.Instrs {
 				if mu, ok := in.(*ssa.MapUpdate); ok {
 					// a map received by value is the caller's map: writing an entry changes what the caller sees
 					if _, isMap := mu.Map.Type().Underlying().(*types.Map); isMap {
-						if src := resliceOfForeign(mu.Map, declared, true, false); src != "" {
+						if src := chk(mu.Map, true, false); src != "" {
 							offences[pk] = append(offences[pk], fmt.Sprintf("%s writes an entry of a map held by %s", key, src))
 							offPos[pk] = w.Fset.Position(mu.Pos())
 						}
@@ -275,7 +273,7 @@ func (w *World) Structural() []structural {
 					}
 					if ia, ok := addr.(*ssa.IndexAddr); ok {
 						if _, isSlice := ia.X.Type().Underlying().(*types.Slice); isSlice {
-							if src := resliceOfForeign(ia.X, declared, true, false); src != "" {
+							if src := chk(ia.X, true, false); src != "" {
 								offences[pk] = append(offences[pk], fmt.Sprintf("%s writes an element of %s", key, src))
 								offPos[pk] = w.Fset.Position(st.Pos())
 							}
@@ -301,7 +299,7 @@ func (w *World) Structural() []structural {
 					}
 					if target != nil {
 						if _, isSlice := target.Type().Underlying().(*types.Slice); isSlice {
-							if src := resliceOfForeign(target, declared, true, false); src != "" {
+							if src := chk(target, true, false); src != "" {
 								offences[pk] = append(offences[pk], fmt.Sprintf("%s sorts %s in place", key, src))
 								offPos[pk] = w.Fset.Position(call.Pos())
 							}
@@ -310,14 +308,14 @@ func (w *World) Structural() []structural {
 				}
 				bi, ok := call.Call.Value.(*ssa.Builtin)
 				if ok && bi.Name() == "delete" && len(call.Call.Args) > 0 {
-					if src := resliceOfForeign(call.Call.Args[0], declared, true, false); src != "" {
+					if src := chk(call.Call.Args[0], true, false); src != "" {
 						offences[pk] = append(offences[pk], fmt.Sprintf("%s deletes an entry of a map held by %s", key, src))
 						offPos[pk] = w.Fset.Position(call.Pos())
 					}
 					continue
 				}
 				if ok && bi.Name() == "copy" && len(call.Call.Args) > 0 {
-					if src := resliceOfForeign(call.Call.Args[0], declared, true, false); src != "" {
+					if src := chk(call.Call.Args[0], true, false); src != "" {
 						offences[pk] = append(offences[pk], fmt.Sprintf("%s copies into %s", key, src))
 						offPos[pk] = w.Fset.Position(call.Pos())
 					}
@@ -326,7 +324,7 @@ func (w *World) Structural() []structural {
 				if !ok || bi.Name() != "append" || len(call.Call.Args) == 0 {
 					continue
 				}
-				if src := resliceOfForeign(call.Call.Args[0], declared, false, true); src != "" {
+				if src := chk(call.Call.Args[0], false, true); src != "" {
 					offences[pk] = append(offences[pk], fmt.Sprintf("%s appends to a re-slice of %s", key, src))
 					offPos[pk] = w.Fset.Position(call.Pos())
 				}
@@ -456,6 +454,7 @@ func (w *World) classifyRange(fr *Frame, li *loopInfo, rng *ssa.Range, next *ssa
 		}
 	}
 	var stores, appends int
+	var appendCalls []*ssa.Call
 	var appendTarget *ssa.Phi
 	var appendAlloc *ssa.Alloc
 	valueIndexed := false
@@ -500,6 +499,7 @@ func (w *World) classifyRange(fr *Frame, li *loopInfo, rng *ssa.Range, next *ssa
 				if bi, ok := in.Call.Value.(*ssa.Builtin); ok {
 					if bi.Name() == "append" {
 						appends++
+						appendCalls = append(appendCalls, in)
 						if phi, ok := in.Call.Args[0].(*ssa.Phi); ok {
 							appendTarget = phi
 						}
@@ -556,7 +556,10 @@ func (w *World) classifyRange(fr *Frame, li *loopInfo, rng *ssa.Range, next *ssa
 						arg = mi.X
 					}
 					if ld, ok := arg.(*ssa.UnOp); ok && ld.X == appendAlloc {
-						return "B", "elements are collected and then sorted before any other use"
+						if why := sortNotTotal(c, appendCalls, keyV); why != "" {
+							return w.detOr(fr, why)
+						}
+						return "B", "elements are collected and then sorted, by an order that is total on them, before any other use"
 					}
 				}
 			}
@@ -566,8 +569,11 @@ func (w *World) classifyRange(fr *Frame, li *loopInfo, rng *ssa.Range, next *ssa
 			return w.detOr(fr, "append to something that is not a loop-carried slice variable")
 		}
 		// the first use of the collected slice after the loop must be a sort
-		if w.sortedAfter(li, appendTarget) {
-			return "B", "elements are collected and then sorted before any other use"
+		if sc := w.sortedAfter(li, appendTarget); sc != nil {
+			if why := sortNotTotal(sc, appendCalls, keyV); why != "" {
+				return w.detOr(fr, why)
+			}
+			return "B", "elements are collected and then sorted, by an order that is total on them, before any other use"
 		}
 		return w.detOr(fr, "collected slice is used unsorted after the loop")
 	case stores == 0 && appends == 0:
@@ -585,9 +591,9 @@ func (w *World) detOr(fr *Frame, why string) (string, string) {
 
 // sortedAfter reports whether the value of the loop-carried slice, once the loop exits, flows (possibly through
 // one store into a captured variable) into sort.Slice / sort.SliceStable / sort.Strings before any other use.
-func (w *World) sortedAfter(li *loopInfo, phi *ssa.Phi) bool {
+func (w *World) sortedAfter(li *loopInfo, phi *ssa.Phi) *ssa.Call {
 	uses := *phi.Referrers()
-	sorted := false
+	var sorted *ssa.Call
 	for _, u := range uses {
 		if li.body[u.Block()] {
 			continue
@@ -599,7 +605,7 @@ func (w *World) sortedAfter(li *loopInfo, phi *ssa.Phi) bool {
 				if c, ok := r.(*ssa.Call); ok {
 					if callee := c.Call.StaticCallee(); callee != nil {
 						if q := qualifiedName(callee); q == "sort.Slice" || q == "sort.SliceStable" {
-							sorted = true
+							sorted = c
 						}
 					}
 				}
@@ -610,14 +616,14 @@ func (w *World) sortedAfter(li *loopInfo, phi *ssa.Phi) bool {
 				if c, ok := in.(*ssa.Call); ok {
 					if callee := c.Call.StaticCallee(); callee != nil {
 						if q := qualifiedName(callee); q == "sort.Slice" || q == "sort.SliceStable" || q == "sort.Strings" {
-							sorted = true
+							sorted = c
 						}
 					}
 				}
 			}
 		case *ssa.Call:
 			if callee := u.Call.StaticCallee(); callee != nil && qualifiedName(callee) == "sort.Strings" {
-				sorted = true
+				sorted = u
 			}
 		}
 	}
@@ -629,6 +635,21 @@ var allClaimed = []string{"C02", "C03", "C04", "C05", "C06", "C07", "C08", "C09"
 // resliceOfForeign reports (as a description, "" = no) whether v derives from a re-slice s[a:b] of a slice that is
 // visible outside the function: a parameter, a field of a by-value parameter, or memory reached through a pointer.
 func resliceOfForeign(v ssa.Value, declared func(*ssa.Parameter) bool, onlyDirect bool, ptrIsForeign bool) string {
+	d, _ := foreignSource(v, declared, onlyDirect, ptrIsForeign)
+	return d
+}
+
+// foreignSource is resliceOfForeign that also returns the parameter the value derives from (nil for other sources).
+func foreignSource(v ssa.Value, declared func(*ssa.Parameter) bool, onlyDirect bool, ptrIsForeign bool) (string, *ssa.Parameter) {
+	var par *ssa.Parameter
+	d := foreignSourceWalk(v, declared, onlyDirect, ptrIsForeign, &par)
+	if d == "" {
+		par = nil
+	}
+	return d, par
+}
+
+func foreignSourceWalk(v ssa.Value, declared func(*ssa.Parameter) bool, onlyDirect bool, ptrIsForeign bool, par **ssa.Parameter) string {
 	seen := map[ssa.Value]bool{}
 	var walk func(v ssa.Value, depth int) string
 	var foreign func(v ssa.Value, depth int) string
@@ -642,6 +663,7 @@ func resliceOfForeign(v ssa.Value, declared func(*ssa.Parameter) bool, onlyDirec
 			if declared(x) {
 				return ""
 			}
+			*par = x
 			return "parameter " + x.Name()
 		case *ssa.FreeVar:
 			return "captured variable " + x.Name()
@@ -739,4 +761,244 @@ func resliceOfForeign(v ssa.Value, declared func(*ssa.Parameter) bool, onlyDirec
 		return ""
 	}
 	return walk(v, 0)
+}
+
+// declaredWrites: the parameters whose referents the contract of top declares as written (`modifies <param>...`).
+func (w *World) declaredWrites(top *ssa.Function) func(*ssa.Parameter) bool {
+	sp := w.SpecFor(top)
+	return func(p *ssa.Parameter) bool {
+		if sp == nil {
+			return false
+		}
+		for _, m := range sp.Modifies {
+			if rootIdent(m) == p.Name() || w.renamed(top, rootIdent(m)) == p.Name() {
+				return true
+			}
+		}
+		return false
+	}
+}
+
+// foreignAtCallers judges a write through parameter par of the statically-only-called helper f at f's call sites: the
+// description of the first call site that hands f something its own caller can see ("" if every call site passes a value
+// of its own). Helpers calling helpers are followed up to four levels.
+func (w *World) foreignAtCallers(f *ssa.Function, par *ssa.Parameter, ptrIsForeign bool, depth int) string {
+	idx := -1
+	for i, p := range f.Params {
+		if p == par {
+			idx = i
+		}
+	}
+	if idx < 0 || depth > 4 {
+		return "parameter " + par.Name()
+	}
+	for _, g := range w.repoFuncsSorted() {
+		top := g
+		for top.Parent() != nil {
+			top = top.Parent()
+		}
+		for _, b := range g.Blocks {
+			for _, in := range b.Instrs {
+				ci, ok := in.(ssa.CallInstruction)
+				if !ok || ci.Common().IsInvoke() || ci.Common().StaticCallee() != f || idx >= len(ci.Common().Args) {
+					continue
+				}
+				src, p2 := foreignSource(ci.Common().Args[idx], w.declaredWrites(top), true, ptrIsForeign)
+				if src == "" {
+					continue
+				}
+				if p2 != nil && p2.Parent() == g && g.Parent() == nil && w.InlineOnly(g) {
+					src = w.foreignAtCallers(g, p2, ptrIsForeign, depth+1)
+					if src == "" {
+						continue
+					}
+				}
+				return fmt.Sprintf("%s (handed to %s by %s)", src, f.Name(), FuncKey(g))
+			}
+		}
+	}
+	return ""
+}
+
+// sortNotTotal explains ("" = fine) why sorting the elements collected from a map range does not determine their order:
+// the comparison must be a strict order that tells any two collected elements apart. Accepted: sort.Strings; a
+// comparison `s[i] < s[j]` / `>` of whole elements of a basic type (elements that compare equal are identical); a
+// comparison `s[i].F < s[j].F` of a field path F where every collected element carries the loop key (distinct per
+// iteration) in F. Anything else (a comparison by priority only, say) leaves ties in map-iteration order.
+func sortNotTotal(sortCall *ssa.Call, appends []*ssa.Call, keyV ssa.Value) string {
+	callee := sortCall.Call.StaticCallee()
+	if callee == nil {
+		return "collected slice is sorted by an unknown function"
+	}
+	if qualifiedName(callee) == "sort.Strings" {
+		return ""
+	}
+	if len(sortCall.Call.Args) < 2 {
+		return "sort call without comparison function"
+	}
+	var less *ssa.Function
+	switch f := sortCall.Call.Args[1].(type) {
+	case *ssa.MakeClosure:
+		less, _ = f.Fn.(*ssa.Function)
+	case *ssa.Function:
+		less = f
+	}
+	if less == nil || len(less.Params) != 2 {
+		return "the comparison function of the sort is not a function literal"
+	}
+	var ret *ssa.Return
+	for _, b := range less.Blocks {
+		for _, in := range b.Instrs {
+			if r, ok := in.(*ssa.Return); ok {
+				if ret != nil {
+					return "the comparison function of the sort has more than one return"
+				}
+				ret = r
+			}
+		}
+	}
+	if ret == nil || len(ret.Results) != 1 {
+		return "the comparison function of the sort has no single result"
+	}
+	cmp, ok := ret.Results[0].(*ssa.BinOp)
+	if !ok || (cmp.Op != token.LSS && cmp.Op != token.GTR) {
+		return "the comparison function of the sort is not a single < or > comparison: ties would keep map-iteration order"
+	}
+	// operand: load of (field path of) slice[param]
+	pathOf := func(v ssa.Value, par *ssa.Parameter) ([]int, bool) {
+		ld, ok := v.(*ssa.UnOp)
+		if !ok || ld.Op != token.MUL {
+			return nil, false
+		}
+		var path []int
+		addr := ld.X
+		for {
+			if fa, ok := addr.(*ssa.FieldAddr); ok {
+				path = append([]int{fa.Field}, path...)
+				addr = fa.X
+				continue
+			}
+			break
+		}
+		ia, ok := addr.(*ssa.IndexAddr)
+		if !ok || ia.Index != ssa.Value(par) {
+			return nil, false
+		}
+		return path, true
+	}
+	px, okx := pathOf(cmp.X, less.Params[0])
+	py, oky := pathOf(cmp.Y, less.Params[1])
+	if !okx || !oky || fmt.Sprint(px) != fmt.Sprint(py) {
+		return "the comparison function of the sort does not compare the same component of its two elements"
+	}
+	if !basicOrBasicTypeParam(cmp.X.Type()) {
+		return "the comparison function of the sort compares a non-basic component"
+	}
+	if len(px) == 0 {
+		return "" // whole elements of a basic type: equal elements are indistinguishable
+	}
+	if keyV == nil {
+		return "the sort compares a field, but the loop does not use the map key"
+	}
+	strip := func(v ssa.Value) ssa.Value {
+		for {
+			switch x := v.(type) {
+			case *ssa.ChangeType:
+				v = x.X
+				continue
+			case *ssa.Convert:
+				v = x.X
+				continue
+			}
+			return v
+		}
+	}
+	for _, ac := range appends {
+		if len(ac.Call.Args) != 2 {
+			return "append of something other than single elements"
+		}
+		// the variadic argument: a slice of a fresh one-element array holding the element
+		sl, ok := ac.Call.Args[1].(*ssa.Slice)
+		if !ok {
+			return "append of a whole slice"
+		}
+		arr, ok := sl.X.(*ssa.Alloc)
+		if !ok {
+			return "append of a whole slice"
+		}
+		var elem ssa.Value
+		n := 0
+		for _, r := range *arr.Referrers() {
+			if ia, ok := r.(*ssa.IndexAddr); ok {
+				for _, r2 := range *ia.Referrers() {
+					if st, ok := r2.(*ssa.Store); ok && st.Addr == ia {
+						elem = st.Val
+						n++
+					}
+				}
+			}
+		}
+		if n != 1 || elem == nil {
+			return "append of more than one element per call"
+		}
+		// the element: a struct built in a local variable whose field at the compared path is the loop key
+		ld, ok := elem.(*ssa.UnOp)
+		if !ok || ld.Op != token.MUL {
+			return "the collected element is not a struct literal carrying the map key in the compared field"
+		}
+		lit, ok := ld.X.(*ssa.Alloc)
+		if !ok {
+			return "the collected element is not a struct literal carrying the map key in the compared field"
+		}
+		found := false
+		for _, r := range *lit.Referrers() {
+			fa, ok := r.(*ssa.FieldAddr)
+			if !ok || len(px) != 1 || fa.Field != px[0] {
+				continue
+			}
+			for _, r2 := range *fa.Referrers() {
+				if st, ok := r2.(*ssa.Store); ok && st.Addr == fa {
+					if strip(st.Val) == strip(keyV) {
+						found = true
+					} else {
+						return "the compared field of a collected element is not the map key: ties would keep map-iteration order"
+					}
+				}
+			}
+		}
+		if !found {
+			return "the compared field of a collected element is not the map key: ties would keep map-iteration order"
+		}
+	}
+	return ""
+}
+
+// basicOrBasicTypeParam: a basic type, or a type parameter all of whose constraint terms have a basic underlying type.
+func basicOrBasicTypeParam(t types.Type) bool {
+	if _, ok := t.Underlying().(*types.Basic); ok {
+		return true
+	}
+	tp, ok := t.(*types.TypeParam)
+	if !ok {
+		return false
+	}
+	iface, ok := tp.Constraint().Underlying().(*types.Interface)
+	if !ok || iface.NumEmbeddeds() == 0 {
+		return false
+	}
+	for i := 0; i < iface.NumEmbeddeds(); i++ {
+		switch e := iface.EmbeddedType(i).(type) {
+		case *types.Union:
+			for j := 0; j < e.Len(); j++ {
+				if _, ok := e.Term(j).Type().Underlying().(*types.Basic); !ok {
+					return false
+				}
+			}
+		default:
+			if _, ok := e.Underlying().(*types.Basic); !ok {
+				return false
+			}
+		}
+	}
+	return true
 }
